@@ -1069,9 +1069,6 @@ def history_baseform(ctx, i, rng):
 
 def case(ctx, i, rng):
     r = i % 20
-    if ctx.time_left() < 1.5:
-        ctx.count("cases_skipped_end_of_time_budget")
-        return
     try:
         if r < 11:
             history_form(ctx, i, rng)
